@@ -157,7 +157,7 @@ class Verifier:
                     res.error_kind = 'crash'
                     stack = []
                 res.paths += 1
-                res.outcomes[outcome] = res.outcomes.get(outcome, 0) + 1
+                res.outcomes[str(outcome)] = res.outcomes.get(str(outcome), 0) + 1
                 res.feas_unknown += path.unknown_feas
                 stack.extend(path.pending)
                 for ob in path.obligations:
